@@ -16,7 +16,7 @@ RULE = (
     "and same tree as the baseline for the optimized interpreter and for code generated from the optimized "
     "rules; a configuration whose Parser cannot be built is a violation. Plus an exhaustive skip-until matrix: "
     "every ordered list of 1-3 stop strings over {a, b, aa, ab, ba, bb} x three rule shapes x every input over "
-    "{a, b, x} of length <= 4 (quick) / 5 (thorough) x {skip alone, default pipeline} x {interpreter, generated}. Non-trivial: the configuration "
+    "{a, b, x} of length <= 4 (quick) / 5 (thorough) x {skip alone, default pipeline} x {interpreter, generated}; and the deterministic trivia-configuration and modifier-chain matrices of pestverif/tmatrix.py (194 + 450 grammars quick, 194 + 2325 thorough) under the default pipeline and single passes. Non-trivial: the configuration "
     "rewrote at least one rule (tree_view differs from the baseline) and the parse consumed input or failed "
     "beyond offset 0; distinct by hash of (grammar, configuration, mode, rule, input)."
 )
@@ -139,6 +139,50 @@ def run_skip_matrix(ctx: Ctx, modes, idx):
     ctx.exhaustive.update({"complete": True, "skip_matrix_stop_lists": len(lists), "skip_matrix_inputs": len(inputs)})
 
 
+def run_trivia_matrix(ctx: Ctx, modes, idx):
+    """Deterministic trivia-configuration and modifier-chain matrices (pestverif/tmatrix.py): the default
+    pipeline and each single pass against optimizer=None."""
+    from pestverif import gast, tmatrix
+
+    cases = tmatrix.trivia_cases(ctx.tier) + tmatrix.chain_cases(ctx.tier)
+    for k, (label, rules, calls) in enumerate(cases):
+        if k % 16 != idx:
+            continue
+        text = gprint.grammar_text(rules)
+        if ctx.tier == "quick":
+            calls = [c for c in calls if c[0] not in ("r5", "r6")]
+        base = modes.raw.call("pestverif.modes:eval_grammar", {"text": text, "calls": calls, "gen": False})
+        if base["load"][0] != "ok":
+            ctx.count("frontend_rejected")
+            continue
+        ctx.count("trivia_matrix_grammars")
+        # the trivia fusion happens in every Optimizer; quick: default pipeline, skip alone, inline-silent alone
+        for cfg in ["opt"] + [(i,) for i in ((1, 4) if ctx.tier == "quick" else range(5))]:
+            res = run_config(modes, cfg, {"text": text, "calls": calls, "gen": True})
+            name = cfg_name(cfg)
+
+            def mk(call, which, cfg=cfg):
+                return {"rules": gast.to_json([list(r) for r in rules]), "grammar_text": text, "rule": call[0],
+                        "input": call[1], "start_pos": 0, "mode": which,
+                        "config": cfg if isinstance(cfg, str) else list(cfg)}
+
+            if res["load"][0] != "ok":
+                ctx.violation(f"matrix:{name}:load", mk(calls[0], "int"), f"Parser construction failed: {res['load']}")
+                continue
+            if res["gen_load"][0] != "ok":
+                ctx.violation(f"matrix:{name}:genload", mk(calls[0], "gen"), f"generated module unloadable: {res['gen_load']}")
+            for which, outs in (("int", res["int"]), ("gen", res["gen"])):
+                for call, b, g in zip(calls, base["int"], outs):
+                    ctx.evals += 1
+                    cls = compare(b, g)
+                    if cls in (None, "skip"):
+                        continue
+                    ctx.violation(f"matrix:{name}:{which}:{cls}", mk(call, which),
+                                  f"baseline {str(b)[:300]} vs [{name}] {str(g)[:300]}")
+        ctx.nt_extra += 1
+    ctx.exhaustive.update({"trivia_matrix_grammars": len(cases), "trivia_matrix_calls": sum(len(c[2]) for c in cases)})
+
+
 def shards(tier: str):
     return [{"idx": i} for i in range(16)]
 
@@ -209,6 +253,7 @@ def run_shard(ctx: Ctx, spec):
 
         t()
         run_skip_matrix(ctx, modes, spec["idx"])
+        run_trivia_matrix(ctx, modes, spec["idx"])
     finally:
         modes.close()
         for w in _singles.values():
